@@ -286,6 +286,37 @@ theorem pquery_closed (table : String) (fromDate toDate : Bytes) (ss : List Prof
   rw [← Prof.PQuery.render_segs q]
   exact render_structure_invariant _ hs
 
+
+/-! ## Two requests of the same shape -/
+
+/-- **same_shape_same_structure.** ONE statement over two arbitrary statements (of any planner model): when both are
+    well formed for their leaves and their segment lists agree after emptying the leaves — they "differ only in string
+    leaves" — their token-kind sequences are equal. -/
+theorem same_shape_same_structure (s1 s2 : Sel) (h1 : wfSel s1 = true) (h2 : wfSel s2 = true)
+    (hs : (segsSel s1).map Seg.shape = (segsSel s2).map Seg.shape) :
+    kinds (renderSel s1) = kinds (renderSel s2) := by
+  rw [render_structure_invariant_sel s1 h1, render_structure_invariant_sel s2 h2, hs]
+
+/-- **fpquery_two_requests.** Two PromQL matcher lists with the same match types position by position — ANY label
+    names, values, regular expressions, and any date bound — planned in the same context give statements with the same
+    token structure: `skeleton (render (plan q₁)) = skeleton (render (plan q₂))`. -/
+theorem fpquery_two_requests (table : String) (d1 d2 : Bytes) (tp : Int) (ms1 ms2 : List Prom.Matcher)
+    (q1 q2 : Prom.FpQuery) (ht : rawE (Prom.ascii table) = true) (hty : ms1.map (·.type) = ms2.map (·.type))
+    (h1 : Prom.fingerprintsQuery table d1 tp ms1 = some q1) (h2 : Prom.fingerprintsQuery table d2 tp ms2 = some q2) :
+    kinds q1.render = kinds q2.render := by
+  rw [(fpquery_closed table d1 tp ms1 q1 ht h1).2.2, (fpquery_closed table d2 tp ms2 q2 ht h2).2.2,
+    Prom.fpQuery_same_shape table d1 d2 tp ms1 ms2 q1 q2 hty h1 h2]
+
+/-- **pquery_two_requests.** Two profile selector lists that agree position by position in operator and in the class of
+    the label name (the same pseudo-label, or both ordinary labels — an ordinary label NAME is a leaf) give statements
+    with the same token structure, whatever the names, values, regular expressions and date bounds are. -/
+theorem pquery_two_requests (table : String) (f1 t1 f2 t2 : Bytes) (ss1 ss2 : List Prof.Selector) (q1 q2 : Prof.PQuery)
+    (ht : rawE (Prom.ascii table) = true) (hc : Prof.SameClasses ss1 ss2)
+    (h1 : Prof.plan table f1 t1 ss1 = some q1) (h2 : Prof.plan table f2 t2 ss2 = some q2) :
+    kinds q1.render = kinds q2.render := by
+  rw [(pquery_closed table f1 t1 ss1 q1 ht h1).2.2, (pquery_closed table f2 t2 ss2 q2 ht h2).2.2,
+    Prof.pquery_same_shape table f1 t1 f2 t2 ss1 ss2 q1 q2 hc h1 h2]
+
 /-! ## The parameters of `| json label="path"` -/
 
 /-- **json_params_closed.** The object that renders the parameters of the LogQL json parser (`sqlJsonParser`): for
